@@ -25,7 +25,7 @@ FLOORS = {
     'thorough': {'evaluations': 100000, 'valid_files': 60000, 'invalid_files': 30000, 'distinct_nontrivial': 5000,
                  'members_compared': 200000},
 }
-BUDGET = {'quick': 12000, 'thorough': 150000}
+BUDGET = {'quick': 12000, 'thorough': 600000}
 SEPS = (' ', '\n', '\n\n', '\t', '\r\n', '  \n  ')
 FAULTS = ('type', 'sanity-ref', 'sanity-dup', 'dup-key', 'unknown-key', 'trailing-annotation', 'syntax', 'empty')
 EXPECTED_CLASS = {'type': 'TypeError', 'sanity-ref': 'HplSanityError', 'sanity-dup': 'HplSanityError',
